@@ -32,7 +32,7 @@ MODULE = "ColaVerif.Properties.C07"
 DRIVER = "DriverC07.lean"
 
 # defects found by this check and not yet decided (none at present)
-PROVISIONAL_KNOWN = {}   # all findings of this check are decided: fixed in /repo (krylov-cut-single-precision: 91895db) or recorded in /verif/known_findings.json
+PROVISIONAL_KNOWN = {}   # nothing provisional: the recorded clauses (krylov-blockdiag-zero-probe, lanczos-batch-breakdown) are read from /verif/known_findings.json
 
 TOL = {  # relative tolerance on sign * exp(logabs) by (path, precision)
     ("direct", "d"): 1e-9, ("direct", "s"): 5e-4,
@@ -94,6 +94,77 @@ def mat_mul(A, B):
 
 def mat_json(A):
     return [[zj(*z) for z in row] for row in A]
+
+
+def zinv(a):
+    d = a[0] * a[0] + a[1] * a[1]
+    return (a[0] / d, -a[1] / d)
+
+
+def zparse(v):
+    """a value printed by the driver (`showZ`) -> (Fraction, Fraction)"""
+    return (fr(v[0]), fr(v[1]))
+
+
+def newton_det(n, t):
+    """Newton's identities in exact complex Fractions: k e_k = sum_{j=1..k} (-1)^(j-1) e_{k-j} t_j; det = e_n"""
+    e = [(Fraction(1), Fraction(0))]
+    for k in range(1, n + 1):
+        s = (Fraction(0), Fraction(0))
+        for j in range(1, k + 1):
+            term = zmul(e[k - j], t[j])
+            s = (s[0] + term[0], s[1] + term[1]) if j % 2 == 1 else (s[0] - term[0], s[1] - term[1])
+        e.append((s[0] / k, s[1] / k))
+    return e[n]
+
+
+def gauss_det(M):
+    """determinant by Gaussian elimination in exact complex Fractions (independent of the driver's `detGE` and of Newton)"""
+    n = len(M)
+    A = [list(r) for r in M]
+    det = (Fraction(1), Fraction(0))
+    for c in range(n):
+        p = next((r for r in range(c, n) if A[r][c] != (0, 0)), None)
+        if p is None:
+            return (Fraction(0), Fraction(0))
+        if p != c:
+            A[p], A[c] = A[c], A[p]
+            det = (-det[0], -det[1])
+        det = zmul(det, A[c][c])
+        pin = zinv(A[c][c])
+        for r in range(c + 1, n):
+            if A[r][c] != (0, 0):
+                f = zmul(A[r][c], pin)
+                A[r] = [(x[0] - zmul(f, y)[0], x[1] - zmul(f, y)[1]) for x, y in zip(A[r], A[c])]
+    return det
+
+
+def recheck_krylov_leaves(ans):
+    """INDEPENDENT re-check of the arithmetic of the driver's Krylov kernel `trlogK` (DriverC07.lean), in exact Python Fractions, for
+    every base leaf it reports: (i) the power sums t_k the exact Krylov model produced through the identity probes equal tr(A^k) computed
+    by plain matrix powers; (ii) the determinant the driver reconstructed from them equals Newton's identities evaluated here;
+    (iii) ... and equals the determinant of the leaf by Gaussian elimination.  -> list of discrepancies (empty = confirmed)"""
+    bad = []
+    for li, leaf in enumerate(ans.get("krylov_leaves") or []):
+        n = leaf["n"]
+        M = [[zparse(z) for z in row] for row in leaf["mat"]]
+        if leaf.get("t") is None:
+            continue            # the driver's own invariance check failed: it reports an error for this case, nothing to confirm
+        t = [zparse(z) for z in leaf["t"]]
+        P = [[(Fraction(int(i == j)), Fraction(0)) for j in range(n)] for i in range(n)]
+        for k in range(n + 1):
+            tr = (sum(P[i][i][0] for i in range(n)), sum(P[i][i][1] for i in range(n)))
+            if tr != t[k]:
+                bad.append(f"leaf {li}: power sum t_{k} = {t[k]} but tr(A^{k}) = {tr}")
+                break
+            if k < n:
+                P = mat_mul(P, M)
+        d = zparse(leaf["det"])
+        if newton_det(n, t) != d:
+            bad.append(f"leaf {li}: Newton's identities give {newton_det(n, t)}, the driver {d}")
+        if gauss_det(M) != d:
+            bad.append(f"leaf {li}: determinant of the leaf is {gauss_det(M)}, the driver's Krylov value {d}")
+    return bad
 
 
 def is_cplx(dt):
@@ -652,6 +723,16 @@ def run(ctx):
                 uniq[k] = {"id": len(uniq), "op": c["op"], "la": c.get("la") or "auto", "ta": c.get("ta")}
             keyof.append(uniq[k]["id"])
         ans = oracle.run_driver(list(uniq.values()), driver=DRIVER)
+        for u in uniq.values():
+            a = ans.get(u["id"]) or {}
+            if a.get("krylov_leaves"):
+                bad = recheck_krylov_leaves(a)
+                stats["krylov-leaves-rechecked"] += len(a["krylov_leaves"])
+                if bad:
+                    stats["krylov-leaf-recheck-failed"] += 1
+                    if stats["krylov-leaf-recheck-failed"] <= 2:
+                        common.violation(ctx, {"broken": "arithmetic of the driver's Krylov kernel (trlogK): " + "; ".join(bad)[:600],
+                                               "case": {"op": u["op"], "la": u["la"]}}, no_input=True)
         out = []
         for c in cases:
             a = ans.get(keyof[c["id"]], {"error": "no answer"})
@@ -790,10 +871,18 @@ def run(ctx):
     common.write_evidence(ctx, gate, cov, assumptions=[
         "numerical kernels: LAPACK cholesky and scipy lu are parameters with contracts (L L^H = A, L lower; A = L[p] U), hypotheses of the theorems, "
         "re-checked by the exact kernels of the driver on every call",
-        "Lanczos / Arnoldi base rule: no longer a contract on its result. Theorems C07_slogdet_krylov / C07_exp_trace_log / C07_krylov_columns + "
+        "Lanczos / Arnoldi base rule: a contract on its PARTS, not on its result. Theorems C07_slogdet_krylov / C07_exp_trace_log / C07_krylov_columns + "
         "KrylovCompose.{lanczos,arnoldi}_unary_exact reduce it to (i) the loop models of C14 / C15 run to Krylov exhaustion (proved invariance A Q = Q T), "
         "(ii) LAPACK's small eigendecomposition T P = P diag(theta), P invertible (CONTRACT), (iii) A diagonalisable and non-singular (meaning of log A); "
-        "the executable model evaluates the Krylov path exactly on the monomials (power sums -> determinant); the transcendental step exp(tr log) on "
+        "round 3: for LANCZOS the reduction is one theorem about a kernel DEFINED from the loop model (Op.lanczosKernels: Lanczos.lanczosExact on every identity "
+        "probe, eigh of T, Q P (log theta . P^H e1), exact trace): C07_lanczos_kernel_parts proves TrlogOfParts for it, C07_slogdet_lanczos concludes for every tree, "
+        "what remains ASSUMED there is EighContract (LAPACK eigh of the small tridiagonal matrix; satisfiable: eighSpectral_contract) -- (ii) -- while (i) and (iii) are "
+        "proved (exhaustion from C14_grade for tol = 0 and cap >= n, else a checked condition of the kernel; Hermitian non-singular => diagonalisable off 0); witness "
+        "C07_lanczos_kernel_witness ([[2,1],[1,2]], det 3).  For ARNOLDI TrlogOfParts stays a hypothesis (witnessed only by diagLogKernels_parts): assumed are (i) "
+        "noClip / stopExact of C15, (ii) eig + solve of the small Hessenberg matrix, (iii) diagonalisability",
+        "the executable model evaluates the Krylov path exactly on the monomials (power sums -> determinant); the driver reports, per Krylov base leaf, matrix, power "
+        "sums and reconstructed determinant, and the harness RE-CHECKS them independently in exact Python Fractions (tr A^k by matrix powers, Newton's identities, "
+        "Gaussian-elimination determinant: recheck_krylov_leaves; outcome krylov-leaves-rechecked); the transcendental step exp(tr log) on "
         "the real floats is compared by tolerance only (Krylov streams: 1e-6 double / 5e-3 single)",
         "stream `range`: IEEE range behaviour (under/overflow of a product) is outside the exact model; the stream compares the real logabs / sign with the "
         "exact determinant's logarithm / phase, so a rule that forms the product before the logarithm is seen although code model == spec there",
